@@ -226,32 +226,104 @@ def run(ctx):
         from .c05 import loader_counter_rules
         loader_counter_rules(ctx, m, loaders)
 
-    # ------------------------------------------------------------ save / load siblings
-    def shape(f):
-        q = m.q(f)
-        return [c.name for c in q.calls() if c.name not in ("branch", "from_residual", "from", "into", "as_ref")]
-    pairs = [("save_json", m.book_fn("save_json"), m.market_fn("save_json")), ("load_json", m.book_fn("load_json"), m.market_fn("load_json"))]
-    for name, a, b in pairs:
-        sa, sb = shape(a), shape(b)
-        ctx.check(sa == sb, "save-load", "siblings|" + name, ctx.loc(b), "OrderBook::%s and Market::%s perform the same call sequence %s" % (name, name, sa),
-                  "OrderBook::%s does %s but Market::%s does %s" % (name, sa, name, sb))
-        for f in (a, b):
-            q = m.q(f)
-            ps = panic_sites(q)
-            ctx.check(not ps, "save-load", "no-panic|" + f.short(), ctx.loc(f), "%s has no panic-capable site (errors are propagated)" % f.short(),
-                      "%s can abort: %s" % (f.short(), "; ".join(p.text() for p in ps)))
-            n_q = len(q.calls("branch"))
-            ctx.check(n_q >= 2, "save-load", "propagates|" + f.short(), ctx.loc(f), "%s propagates %d fallible steps with `?`" % (f.short(), n_q))
+    # ------------------------------------------------------------ save / load paths (book and market judged by one rule)
+    # Judged on the inlined view (private / pub(super) helpers such as a shared `write_json` / `write_snapshot` spliced in),
+    # by WHAT is done rather than by an exact call sequence:
+    #   save: one serializer per value of `pretty` (writer-, vec- or string-flavoured), both given `self`; the bytes go to
+    #         a file opened on `path` that is TRUNCATED (File::create, fs::write, or OpenOptions with truncate(true)):
+    #         without truncation an existing longer file keeps trailing bytes and the snapshot no longer loads;
+    #   load: the whole file at `path` is parsed by serde_json into Self;
+    #   both: every fallible step's result is propagated (`?`) or returned, never dropped; no panic-capable site.
+    SER = {"to_writer": "to_writer_pretty", "to_vec": "to_vec_pretty", "to_string": "to_string_pretty"}
+
+    def has_call(e, name, res_part=None):
+        return any(x[0] == "call" and x[4] == name and (res_part is None or res_part in x[1]) for x in walk(e))
+
+    def path_param(e):
+        return any(x[0] == "param" and x[2] == "path" for x in walk(e))
+
+    def results_propagated(q, f):
+        ret = q.ret()
+        bad = []
+        for c in q.calls():
+            if not c.term.dest.ty.startswith("std::result::Result"):
+                continue
+            if c.name in ("from_residual",):
+                continue
+            r = c.result
+            used = any(b2.args and any(y == r for y in walk(b2.args[0])) for b2 in q.calls("branch")) or any(y == r for y in walk(ret))
+            if not used:
+                bad.append(c.name)
+        ctx.check(not bad, "save-load", "propagates|" + f.short(), ctx.loc(f), "%s: every fallible step is propagated with `?` or returned" % f.short(),
+                  "%s drops the result of fallible call(s) %s (a failed write/parse would go unnoticed)" % (f.short(), bad))
+        ps = panic_sites(q)
+        ctx.check(not ps, "save-load", "no-panic|" + f.short(), ctx.loc(f), "%s has no panic-capable site (errors are propagated)" % f.short(),
+                  "%s can abort: %s" % (f.short(), "; ".join(p.text() for p in ps)))
+
     for f in (m.book_fn("save_json"), m.market_fn("save_json")):
-        q = m.q(f)
-        w1, w2 = q.calls("to_writer_pretty"), q.calls("to_writer")
-        ok = len(w1) == 1 and len(w2) == 1 and w1[0].args == w2[0].args and w1[0].args[1][0] == "param" and w1[0].args[1][1] == 1
-        gp = [a for a in w1[0].guards if a[0] == "bool"] if w1 else []
-        ctx.check(ok and bool(gp), "save-load", "pretty|" + f.short(), ctx.loc(f), "`pretty` only selects the writer; both write (file, self)", "pretty/compact writers differ in arguments")
+        q = m.qi(f)
+        plain = [c for c in q.calls(tuple(SER)) if "serde_json" in c.resolved]
+        pretty = [c for c in q.calls(tuple(SER.values())) if "serde_json" in c.resolved]
+        ok = len(plain) == 1 and len(pretty) == 1 and SER.get(plain[0].name) == pretty[0].name
+        detail = "serializer calls: %s" % [c.name for c in plain + pretty]
+        if ok:
+            cp, cy = plain[0], pretty[0]
+            ok = cp.args[-1] == ("param", 1, "self") and cy.args[-1] == ("param", 1, "self")
+            detail = "serialised values: %s / %s" % (render(cp.args[-1]), render(cy.args[-1]))
+            if ok:
+                def sel(c, val):
+                    bs = [a for a in c.guards if a[0] == "bool"]
+                    rest = [a for a in c.guards if a[0] not in ("bool",) and not (a[0] == "variant" and a[2] == ("Continue",))]
+                    return len(bs) == 1 and bs[0][1][0] == "param" and bs[0][1][2] == "pretty" and bs[0][2] is val and not rest
+                ok = sel(cy, True) and sel(cp, False)
+                detail = "conditions: pretty writer under [%s], compact writer under [%s]" % (cy.gtext(), cp.gtext())
+            if ok and cp.name == "to_writer":
+                ok = cp.args[0] == cy.args[0]
+                detail = "writers differ: %s / %s" % (render(cp.args[0])[:60], render(cy.args[0])[:60])
+        ctx.check(ok, "save-load", "pretty|" + f.short(), ctx.loc(f), "`pretty` only selects the serde_json flavour; both serialise `self` into the same sink", "pretty/compact paths differ: " + detail)
+        # the sink: a truncated file at `path`
+        sink = None
+        if plain and plain[0].name == "to_writer":
+            w = plain[0].args[0]
+            if has_call(w, "create", "fs::File") and path_param(w):
+                sink = "File::create(path) (truncates)"
+        elif plain:
+            data_ok = False
+            for c in q.calls(("write_all", "write")):
+                if len(c.args) >= 2 and has_call(c.args[-1], plain[0].name) and has_call(c.args[-1], pretty[0].name if pretty else "?"):
+                    data_ok = True
+                    if c.name == "write" and "std::fs::write" in c.resolved and path_param(c.args[0]):
+                        sink = "fs::write(path, bytes) (truncates)"
+            if data_ok and sink is None:
+                for c in q.calls(("create", "open")):
+                    if c.name == "create" and "fs::File" in c.resolved and path_param(c.args[0]):
+                        sink = "File::create(path) (truncates)"
+                    if c.name == "open" and "OpenOptions" in c.resolved and len(c.args) == 2 and path_param(c.args[1]):
+                        chain = [x for x in walk(c.args[0]) if x[0] == "call" and "OpenOptions" in x[1]]
+                        flags = {x[4]: x[2][1] for x in chain if len(x[2]) == 2}
+                        def on(n):
+                            v = flags.get(n)
+                            return v is not None and v[0] == "const" and v[3] == 1
+                        if on("write") and on("truncate") and not on("append"):
+                            sink = "OpenOptions.write(true).truncate(true).open(path)"
+                        else:
+                            sink = None
+                            ctx.bad("save-load", "truncate|" + f.short(), c.loc(), "%s opens the snapshot file with OpenOptions flags %s: without write+truncate an existing longer file keeps its trailing bytes and the saved snapshot is rejected on load" % (
+                                f.short(), sorted(k for k in flags if on(k))))
+                            break
+        ctx.check(sink is not None, "save-load", "sink|" + f.short(), ctx.loc(f), "%s writes the serialised bytes to %s" % (f.short(), sink), "%s: no truncating file sink on `path` recognised for the serialised bytes" % f.short())
+        results_propagated(q, f)
     for f in (m.book_fn("load_json"), m.market_fn("load_json")):
-        q = m.q(f)
-        fr = q.calls("from_reader")
-        ctx.check(len(fr) == 1 and try_only(fr[0]), "save-load", "reader|" + f.short(), ctx.loc(f), "%s parses the whole file with serde_json::from_reader" % f.short())
+        q = m.qi(f)
+        fr = [c for c in q.calls(("from_reader", "from_slice", "from_str")) if "serde_json" in c.resolved]
+        ok = len(fr) == 1 and not [a for a in fr[0].guards if not (a[0] == "variant" and a[2] == ("Continue",))]
+        if ok:
+            src = fr[0].args[0]
+            ok = path_param(src) and (has_call(src, "open", "fs::File") or has_call(src, "read") or has_call(src, "read_to_string"))
+            ok = ok and (f.impl_adt or "").split("::")[-1].split("<")[0] in fr[0].term.dest.ty
+        ctx.check(ok, "save-load", "reader|" + f.short(), ctx.loc(f), "%s parses the whole file at `path` with serde_json into Self" % f.short(),
+                  "%s does not parse the file at `path` with one unconditional serde_json reader call" % f.short())
+        results_propagated(q, f)
 
     # ------------------------------------------------------------ truncation / abort freedom on the load path
     roots_f = [m.book_fn("load_json"), m.market_fn("load_json"), ld] + ds
